@@ -22,6 +22,7 @@ import (
 	"github.com/chrislusf/seaweedfs/weed/storage/needle"
 	"github.com/chrislusf/seaweedfs/weed/storage/types"
 	"github.com/chrislusf/seaweedfs/weed/topology"
+	"github.com/golang/protobuf/proto"
 	"pgregory.net/rapid"
 
 	"verifharness/vlib"
@@ -285,9 +286,9 @@ func (w *world) deliver(s *server, m *message) {
 			keep = append(keep, d)
 		}
 		if len(keep) != len(hb.DeletedVolumes) {
-			c := *hb
+			c := proto.Clone(hb).(*master_pb.Heartbeat)
 			c.DeletedVolumes = keep
-			hb = &c
+			hb = c
 		}
 	}
 	// --- full EC heartbeat changing the shard count of a registered EC volume while >= 2 are registered
@@ -309,7 +310,7 @@ func (w *world) deliver(s *server, m *message) {
 			if vlib.Known(kEcFull) {
 				vlib.Excluded(kEcFull)
 				// same end state through incremental messages
-				c := *hb
+				c := proto.Clone(hb).(*master_pb.Heartbeat)
 				c.EcShards, c.HasNoEcShards = nil, false
 				reg := map[uint32]*erasure_coding.EcVolumeInfo{}
 				for _, e := range existing {
@@ -327,7 +328,7 @@ func (w *world) deliver(s *server, m *message) {
 						c.NewEcShards = append(c.NewEcShards, &master_pb.VolumeEcShardInformationMessage{Id: e.Id, Collection: e.Collection, EcIndexBits: add, DiskType: e.DiskType})
 					}
 				}
-				hb = &c
+				hb = c
 				note += "(full EC sync sent as incremental)"
 			}
 		}
